@@ -113,7 +113,7 @@ package codec
 // README "Any": {"!type": <type name>, "value": <encoded message>}
 //@ func (*encoder).encodeAny
 //@   opt strings smt
-//@   requires enc != nil && enc.b != nil && enc.codec != nil
+//@   requires enc != nil && enc.b != nil && codecOK(enc.codec)
 //@   assert at return#7 framed: out(enc) == old(out(enc)) + "{" + jq("!type") + ":" + jq(val.TypeName) + "," + jq("value") + ":" + string(jsonData) + "}"
 
 // README "Enum": the short option name as a JSON string
@@ -137,8 +137,9 @@ package codec
 
 // ---- nil safety of the decoder (C06) ---------------------------------------------------------------
 // A decoder always has its token source and codec; a codec always has its reflector (NewCodec).
-//@ type *decoder invariant d: d != nil && d.jd != nil && d.codec != nil && d.codec.refl != nil
-//@ type *Codec invariant c: c != nil && c.refl != nil
+//@ spec func codecOK(c *Codec) bool = c != nil && c.refl != nil && c.refl.schemaSet != nil && c.refl.schemaSet.packages != nil
+//@ type *decoder invariant d: d != nil && d.jd != nil && codecOK(d.codec)
+//@ type *Codec invariant c: codecOK(c)
 // a resolver that reports no error returns a message type (protoregistry contract)
 //@ func (MessageTypeResolver).FindMessageByName
 //@   modifies nothing
